@@ -11,6 +11,13 @@ export GOCACHE="${GOCACHE:-$ROOT/.cache/go-build}"
 mkdir -p "$ROOT/.bin"
 cd "$ROOT/engine" || exit 2
 cp /repo/go.sum go.sum 2>/dev/null
+# Development aid: VERIF_REPO=<dir> builds against another golua tree into .bin/alt.
+MODFLAG=""; OUT="$ROOT/.bin"
+if [ -n "${VERIF_REPO:-}" ]; then
+  mkdir -p "$ROOT/.bin/alt"
+  sed "s#=> /repo#=> $VERIF_REPO#" go.mod > "$ROOT/.bin/alt/c14.mod"; cp go.sum "$ROOT/.bin/alt/c14.sum"
+  MODFLAG="-modfile=$ROOT/.bin/alt/c14.mod"; OUT="$ROOT/.bin/alt"
+fi
 LOG="$ROOT/.bin/c14.build.log"
 : > "$LOG"
 fail() {
@@ -30,10 +37,10 @@ CONFIGS=(
 pids=()
 for c in "${CONFIGS[@]}"; do
   name="${c%%:*}"; tags="${c#*:}"
-  ( go build -tags "verif $tags" -ldflags=-checklinkname=0 -o "$ROOT/.bin/c14-runner-$name" ./cmd/c14/runner 2>"$LOG.$name" ) &
+  ( go build $MODFLAG -tags "verif $tags" -ldflags=-checklinkname=0 -o "$OUT/c14-runner-$name" ./cmd/c14/runner 2>"$LOG.$name" ) &
   pids+=($!)
 done
-( go build -tags "verif" -ldflags=-checklinkname=0 -o "$ROOT/.bin/c14" ./cmd/c14 2>"$LOG.check" ) &
+( go build $MODFLAG -tags "verif" -ldflags=-checklinkname=0 -o "$OUT/c14" ./cmd/c14 2>"$LOG.check" ) &
 pids+=($!)
 rc=0
 for p in "${pids[@]}"; do wait "$p" || rc=1; done
